@@ -87,8 +87,18 @@ func c19JudgeDecode(a *acc, inf, hf, rsv uint8, seg [3]uint8, kind string, ninf,
 	}
 	switch kind {
 	case shapeEmpty:
-		// Not judged: the statement speaks of non-empty segments and says nothing
-		// about the header with no segment at all.
+		// The statement speaks of non-empty segments and says nothing about the
+		// header with no segment at all, with one exception: where it is accepted
+		// with both pointers at zero (the canonical empty path) it has no segment
+		// boundary, so neither cross-over predicate may be reported.
+		if err == nil && inf == 0 && hf == 0 {
+			a.evals++
+			a.event("empty_path_predicates_judged")
+			if base.IsXover() || base.IsFirstHopAfterXover() {
+				a.violation("C19:empty-path:xover", fmt.Sprintf("the accepted empty path (no segment, no hop) reports IsXover()=%v IsFirstHopAfterXover()=%v",
+					base.IsXover(), base.IsFirstHopAfterXover()), wit("cross-over", "none"))
+			}
+		}
 		return
 	case shapeOK:
 		a.evals++
